@@ -30,7 +30,7 @@ CONSULTED = {
     "minimum": ("exclusiveMinimum",),     # boolean modifier in drafts 3/4
     "maximum": ("exclusiveMaximum",),
 }
-KEEP_ALWAYS = ("definitions", "id", "$id", "$schema")
+KEEP_ALWAYS = ("definitions", "id", "$id", "$schema", "x-slots")
 MULTI = ("required", "dependencies", "items", "properties", "patternProperties", "additionalProperties", "allOf", "extends")
 
 
@@ -40,7 +40,7 @@ def shards(tier):
 
 def floors(tier):
     f = {"cases": 15000, "cases_3plus_keywords_failing": 3000, "cases_2plus_errors_one_keyword": 1000,
-         "rerooted_cases": 3000}
+         "rerooted_cases": 3000, "cases_with_references": 2000}
     for k in MULTI:
         f["multi:" + k] = 100
         f["decomposed:" + k] = 500
@@ -86,11 +86,22 @@ def has_root_ref_or_hash(S):
     return scan(S)
 
 
-def compare(ctx, d, S, inst, rerooted=False):
+def compare(ctx, d, S, inst, rerooted=False, store=None, handler_docs=None):
     if not isinstance(S, dict) or has_root_ref_or_hash(S):
         return
-    cls = impl.CLS[d]
-    case = {"draft": d, "schema": S, "instance": inst}
+    base_cls = impl.CLS[d]
+    if store is not None or handler_docs is not None:
+        from jsonschema import RefResolver
+
+        def cls(schema):
+            def handler(url):
+                return handler_docs[url.split("#")[0]]
+            return base_cls(schema, resolver=RefResolver.from_schema(schema, id_of=base_cls.ID_OF, store=dict(store or {}),
+                                                                    handlers={"vf": handler}))
+        ctx.count("cases_with_references")
+    else:
+        cls = base_cls
+    case = {"draft": d, "schema": S, "instance": inst, "store": store, "handler_docs": handler_docs}
     try:
         full = list(cls(S).iter_errors(inst))
     except Exception:
@@ -121,10 +132,11 @@ def compare(ctx, d, S, inst, rerooted=False):
             ctx.violation("restricted-raised", dict(case, keyword=k), "%s: %s" % (type(e).__name__, str(e)[:120]))
             return
         union.extend(fp(e) for e in errs if attr(e) == k)
-    try:
-        decompose(ctx, d, S, inst, by_kw, case)
-    except Exception as e:
-        ctx.count("decompose_skipped_exception:" + type(e).__name__)
+    if store is None and handler_docs is None:
+        try:
+            decompose(ctx, d, S, inst, by_kw, case)
+        except Exception as e:
+            ctx.count("decompose_skipped_exception:" + type(e).__name__)
     F = sorted((fp(e) for e in full), key=repr)
     U = sorted(union, key=repr)
     if F != U:
@@ -266,8 +278,15 @@ def run(ctx):
         except Exception:
             continue
         ig = InstGen(rng, S)
-        for inst in ig.batch(4):
+        batch = ig.batch(4)
+        for inst in batch:
             compare(ctx, d, S, inst)
+        if i % 3 == 0:
+            from vf.gen import refs as R
+            arr = R.arrange(rng, d, S)
+            if arr is not None and R.arrangement_ok(arr) and arr.info["mode"] != "nested":
+                for inst in batch:
+                    compare(ctx, d, arr.schema, inst, store=arr.store, handler_docs=arr.handler_docs)
         # re-root at nested subschemas (the relation is recursive)
         subs = [s for p, s in walk_subschemas(d, S) if p and isinstance(s, dict) and len(s) >= 2]
         rng.shuffle(subs)
@@ -279,7 +298,10 @@ def run(ctx):
             ctx.sample({"draft": d, "schema": S, "instance": ig.directed()})
 
 
+TRIPWIRE_EXPECTED = ("urlopen",)
+
+
 def replay(ctx, rec):
     impl.quiet()
     c = rec["case"]
-    compare(ctx, c["draft"], c["schema"], c["instance"])
+    compare(ctx, c["draft"], c["schema"], c["instance"], store=c.get("store"), handler_docs=c.get("handler_docs"))
